@@ -11,7 +11,7 @@ Three kinds of case, each reproducible from (kind, seed):
          DESolver.solve / KWNBase.postProcess / KWNBase.reset (and TTPCalculator) — no thermodynamics
   real   binary Al-Zr KWN run (kawin/tests setup) with stopping conditions; TTPCalculator in thorough
 """
-import contextlib, io, math, types
+import contextlib, io, math, os, traceback, types
 import numpy as np
 import vlib
 from vlib import Result, enc_list, f2b, Toks, close
@@ -42,6 +42,56 @@ CLASSES = ['VolumeFractionCondition', 'AverageRadiusCondition', 'DrivingForceCon
            'NucleationRateCondition', 'PrecipitateDensityCondition', 'CompositionCondition']
 PHASES = ['AL3ZR', 'BETA', 'GAMMA_P', 'L12']
 ELEMS = ['ZR', 'CR', 'MG', 'SI']
+
+
+# ---------------------------------------------------------------- guards
+_TOOLS = os.path.dirname(os.path.dirname(os.path.abspath(__file__)))
+
+
+def excinfo(e):
+    """who raised: walk the traceback from the innermost frame outwards; the first frame that belongs to the tree under
+    test (impl) or to the harness decides.  Frames of numpy / stdlib in between are skipped."""
+    impl, site = False, None
+    repo = os.path.abspath(vlib.REPO) + os.sep
+    for fr in reversed(traceback.extract_tb(e.__traceback__)):
+        fn = os.path.abspath(fr.filename)
+        if fn.startswith(repo):
+            impl = True; site = '%s:%d in %s' % (os.path.relpath(fn, vlib.REPO), fr.lineno, fr.name); break
+        if fn.startswith(_TOOLS + os.sep):
+            break
+    return dict(name=type(e).__name__, msg=str(e)[:200], tb=''.join(traceback.format_exception(e))[-900:], impl=impl, site=site, exc=e)
+
+
+def report_exc(res, what, desc, ei):
+    """an exception of the code under test is a violation keyed by call site and type (case = replayable description);
+    an exception of the harness is collected and re-raised by finish() only when the run found no violation"""
+    if ei['impl']:
+        res.violate('raises:%s:%s' % (what, ei['name']), 'the implementation raised %s: %s (at %s)' % (ei['name'], ei['msg'], ei['site']),
+                    desc, ei['tb'], 'no exception')
+    else:
+        res.extra.setdefault('harness_errors', []).append({'what': what, 'case': vlib.jsonable(desc), 'error': ei['tb']})
+        res._harness_exc = ei['exc']
+
+
+def guard(res, what, desc, fn, *a, **k):
+    """run one piece of per-case work; never lets an exception end the run.  Returns (ok, value)."""
+    try:
+        return True, fn(*a, **k)
+    except Exception as e:
+        report_exc(res, what, desc, excinfo(e))
+        return False, None
+
+
+def driver(ctx, res, lines, oracle_only):
+    if not ctx.driver_ok or oracle_only:
+        return None
+    ok, m = guard(res, 'model-driver', {'lines': len(lines)}, vlib.run_driver, PROP, lines)
+    return m if ok else None
+
+
+def finish(res):
+    if getattr(res, '_harness_exc', None) is not None and not res.violations:
+        raise res._harness_exc
 
 
 # ---------------------------------------------------------------- helpers
@@ -245,11 +295,12 @@ def stub_at(stub, H, n):
 
 def drive_obj(c):
     """returns (trace of (sat, time) after each step | exception info, trace2)"""
-    stub = make_stub(c)
-    cond = make_cond(c['q'], c['d'], c['value'], c['sel'])
-    out = {'init': (bool(cond.isSatisfied()), float(cond.satisfiedTime())), 'tr': [], 'exc': None, 'tr2': [], 'reset': None}
+    out = {'init': None, 'tr': [], 'exc': None, 'tr2': [], 'reset': None}
     try:
       with np.errstate(all='ignore'):
+        stub = make_stub(c)
+        cond = make_cond(c['q'], c['d'], c['value'], c['sel'])
+        out['init'] = (bool(cond.isSatisfied()), float(cond.satisfiedTime()))
         for n in c['steps']:
             stub_at(stub, c['H'], n)
             cond.testCondition(stub)
@@ -261,8 +312,8 @@ def drive_obj(c):
                 stub_at(stub, c['H'], n)
                 cond.testCondition(stub)
                 out['tr2'].append((bool(cond.isSatisfied()), float(cond.satisfiedTime())))
-    except Exception as e:          # noqa: the real code raising IS an observation
-        out['exc'] = (type(e).__name__, str(e)[:200])
+    except Exception as e:          # the real code raising IS an observation; who raised is decided by excinfo
+        out['exc'] = excinfo(e)
     return out
 
 
@@ -275,11 +326,11 @@ def obj_desc(c):
 def oracle_obj(res, c, out):
     desc = obj_desc(c)
     if out['exc'] is not None:
-        name = out['exc'][0]
-        if c['col'] is None and name in ('IndexError', 'ValueError'):
-            res.count('obj:unknown-name-raises')
+        ei = out['exc']
+        if c['col'] is None and ei['impl'] and ei['name'] in ('IndexError', 'ValueError'):
+            res.count('obj:unknown-name-raises')        # allowed: the name is not in the model (the model reports `raise` too)
             return
-        res.violate('condition-test-raises-' + name, 'testCondition raised %s: %s' % out['exc'], desc, out['exc'], 'no exception')
+        report_exc(res, 'condition-test', desc, ei)
         return
     if c['col'] is None:
         res.violate('unknown-name-accepted', 'a phase/element name that is not in the model selected a column', desc)
@@ -315,45 +366,64 @@ def oracle_obj(res, c, out):
             res.violate('reset-does-not-clear', 'after reset() the condition is not (False, -1)', desc, out['reset'], (False, -1.0))
 
 
+def obj_lines(c):
+    head = 'sc.seq %s %s %s ' % (enc_hist(c['nP'], c['nE'], c['H']), enc_names(c['phases'], c['elements']),
+                                 enc_cond(c['q'], c['d'], c['value'], c['sel']))
+    return [head + enc_latch(False, -1.0) + ' ' + vlib.enc_ilist(c['steps']),
+            head + enc_latch(False, -1.0) + ' ' + vlib.enc_ilist(c['steps2'] or [])]
+
+
+def post_obj(res, c, out, model, li, first):
+    desc = obj_desc(c)
+    res.case(('obj', c['s']), nontrivial=len(c['steps']) > 1 and out['exc'] is None)
+    res.count('obj:q:' + QUANT[c['q']]); res.count('obj:dir:' + c['d']); res.count('obj:steps:' + c['sk'])
+    res.count('obj:threshold:' + c['tk']); res.count('obj:series:' + str(c['skind']))
+    res.count('obj:selector:' + ('none' if c['sel'] is None else 'unknown' if c['col'] is None else 'col%d' % c['col']))
+    if first:
+        res.sample(dict(desc, trace=out['tr'][:6]))
+    oracle_obj(res, c, out)
+    if model is None or li is None:
+        return
+    for ln, tr, steps in ((model[li], out['tr'], c['steps']), (model[li + 1], out['tr2'], c['steps2'] or [])):
+        t = Toks(ln)
+        if not t.ok:
+            res.disagree('sc.seq model error ' + str(t.err), desc, 'ok', t.err); break
+        if t.t[1] == 'raise':
+            if out['exc'] is None:
+                res.disagree('model raises (unknown name), implementation does not', desc, out['tr'][:3], 'raise')
+            break
+        if out['exc'] is not None:
+            res.disagree('implementation raises, model does not', desc, out['exc']['name'], ln[:80]); break
+        k = t.nat()
+        m = [(t.bool(), t.flt()) for _ in range(k)]
+        if len(m) != len(tr) or any(a[0] != b[0] or not close(a[1], b[1], 1e-12) for a, b in zip(tr, m)):
+            j = next((j for j, (a, b) in enumerate(zip(tr, m)) if a[0] != b[0] or not close(a[1], b[1], 1e-12)), -1)
+            res.disagree('latch after step index %d (row %s)' % (j, steps[j] if 0 <= j < len(steps) else '?'), desc,
+                         tr[j] if j >= 0 else len(tr), m[j] if j >= 0 else len(m)); break
+        res.count('obj:bit-identical-times', sum(1 for a, b in zip(tr, m) if a[1] == b[1]))
+        res.count('obj:compared-steps', len(tr))
+
+
 def part_obj(ctx, res, N, oracle_only):
-    cases = [obj_case(ctx.rng.getrandbits(40)) for _ in range(N)]
-    outs = [drive_obj(c) for c in cases]
-    lines = []
-    for c in cases:
-        head = 'sc.seq %s %s %s ' % (enc_hist(c['nP'], c['nE'], c['H']), enc_names(c['phases'], c['elements']),
-                                     enc_cond(c['q'], c['d'], c['value'], c['sel']))
-        lines.append(head + enc_latch(False, -1.0) + ' ' + vlib.enc_ilist(c['steps']))
-        lines.append(head + enc_latch(False, -1.0) + ' ' + vlib.enc_ilist(c['steps2'] or []))
-    model = vlib.run_driver(PROP, lines) if (ctx.driver_ok and not oracle_only) else None
-    for i, (c, out) in enumerate(zip(cases, outs)):
-        met = any(s for s, _ in out['tr'])
-        res.case(('obj', c['s']), nontrivial=len(c['steps']) > 1 and out['exc'] is None)
-        res.count('obj:q:' + QUANT[c['q']]); res.count('obj:dir:' + c['d']); res.count('obj:steps:' + c['sk'])
-        res.count('obj:threshold:' + c['tk']); res.count('obj:series:' + str(c['skind']))
-        res.count('obj:selector:' + ('none' if c['sel'] is None else 'unknown' if c['col'] is None else 'col%d' % c['col']))
-        if i < 1:
-            res.sample(dict(obj_desc(c), trace=out['tr'][:6]))
-        oracle_obj(res, c, out)
-        if model is None or out['exc'] is not None and c['col'] is not None:
+    recs, lines = [], []
+    for _ in range(N):
+        s = ctx.rng.getrandbits(40)
+        ok, c = guard(res, 'obj-generate', dict(kind='obj', s=s), obj_case, s)
+        if not ok:
             continue
-        for ln, tr, steps in ((model[2 * i], out['tr'], c['steps']), (model[2 * i + 1], out['tr2'], c['steps2'] or [])):
-            t = Toks(ln)
-            if not t.ok:
-                res.disagree('sc.seq model error ' + str(t.err), obj_desc(c), 'ok', t.err); break
-            if t.t[1] == 'raise':
-                if out['exc'] is None:
-                    res.disagree('model raises (unknown name), implementation does not', obj_desc(c), out['tr'][:3], 'raise')
-                break
-            if out['exc'] is not None:
-                res.disagree('implementation raises, model does not', obj_desc(c), out['exc'], ln[:80]); break
-            k = t.nat()
-            m = [(t.bool(), t.flt()) for _ in range(k)]
-            if len(m) != len(tr) or any(a[0] != b[0] or not close(a[1], b[1], 1e-12) for a, b in zip(tr, m)):
-                j = next((j for j, (a, b) in enumerate(zip(tr, m)) if a[0] != b[0] or not close(a[1], b[1], 1e-12)), -1)
-                res.disagree('latch after step index %d (row %s)' % (j, steps[j] if 0 <= j < len(steps) else '?'), obj_desc(c),
-                             tr[j] if j >= 0 else len(tr), m[j] if j >= 0 else len(m)); break
-            res.count('obj:bit-identical-times', sum(1 for a, b in zip(tr, m) if a[1] == b[1]))
-            res.count('obj:compared-steps', len(tr))
+        ok, out = guard(res, 'condition-test', obj_desc(c), drive_obj, c)
+        if not ok:
+            continue
+        li = None
+        # protocol lines only for cases whose implementation calls completed (or raised the allowed unknown-name error)
+        if out['exc'] is None or (c['col'] is None and out['exc']['impl'] and out['exc']['name'] in ('IndexError', 'ValueError')):
+            ok, ls = guard(res, 'obj-encode', obj_desc(c), obj_lines, c)
+            if ok:
+                li = len(lines); lines += ls
+        recs.append((c, out, li))
+    model = driver(ctx, res, lines, oracle_only)
+    for i, (c, out, li) in enumerate(recs):
+        guard(res, 'obj-evaluate', obj_desc(c), post_obj, res, c, out, model, li, i < 1)
 
 
 # ---------------------------------------------------------------- (a2) scripted histories through the real solve / postProcess
@@ -463,12 +533,12 @@ def pdata_hist(pd):
 
 def drive_synth(c):
     """runs the real solve once or twice; returns segments [(k0, tf, entry latches, m, latches after, H after)]"""
-    from kawin.solver import SolverType
-    M = synth_class()(c['phases'], c['elements'], lambda T: c['H'])
-    objs = [make_cond(k['q'], k['d'], k['value'], k['sel']) for k in c['conds']]
     segs, exc = [], None
-    nfirst = len(objs) if c['late'] is None else c['late']
     try:
+        from kawin.solver import SolverType
+        M = synth_class()(c['phases'], c['elements'], lambda T: c['H'])
+        objs = [make_cond(k['q'], k['d'], k['value'], k['sel']) for k in c['conds']]
+        nfirst = len(objs) if c['late'] is None else c['late']
         for o, k in list(zip(objs, c['conds']))[:nfirst]:
             M.addStoppingCondition(o, k['mode'])
         for si, sim in enumerate(c['sim']):
@@ -483,8 +553,7 @@ def drive_synth(c):
             post = [(bool(o.isSatisfied()), float(o.satisfiedTime())) for o in objs[:active]]
             segs.append(dict(k0=k0, tf=float(M.finalTime), active=active, pre=pre, m=M.pData.n, post=post, H=pdata_hist(M.pData)))
     except Exception as e:
-        import traceback
-        exc = (type(e).__name__, str(e)[:200], traceback.format_exc()[-600:])
+        exc = excinfo(e)
     return segs, exc
 
 
@@ -562,31 +631,43 @@ def compare_segment(res, desc, ln, seg):
         res.disagree('model stop flag true before the last step', desc, None, flags)
 
 
+def post_synth(res, c, segs, exc, model, lis, first):
+    desc = synth_desc(c)
+    res.case(('synth', c['s']), nontrivial=len(c['conds']) > 0 and exc is None)
+    res.count('synth:conds:%d' % len(c['conds'])); res.count('synth:modes:' + c['mk'])
+    res.count('synth:solves:%d' % len(c['sim'])); res.count('synth:iterator:' + ('rk4' if c['rk4'] else 'euler'))
+    if first:
+        res.sample(dict(desc, segments=[dict(k0=s_['k0'], m=s_['m'], tf=s_['tf'], post=s_['post']) for s_ in segs]))
+    if exc is not None:
+        report_exc(res, 'solve-with-conditions', desc, exc)
+    for seg, li in zip(segs, lis):
+        oracle_segment(res, '', desc, c['conds'], seg, 'synth')
+        if model is not None and li is not None:
+            compare_segment(res, desc, model[li], seg)
+    res.traces += len(segs)
+
+
 def part_synth(ctx, res, N, oracle_only):
-    cases = [synth_case(ctx.rng.getrandbits(40)) for _ in range(N)]
     lines, recs = [], []
-    for c in cases:
-        segs, exc = drive_synth(c)
-        recs.append((segs, exc))
-        for seg in segs:
-            lines.append(seg_line(enc_names(c['phases'], c['elements']), seg['H'], c['nP'], c['nE'], c['conds'], seg))
-    model = vlib.run_driver(PROP, lines) if (ctx.driver_ok and not oracle_only) else None
-    li = 0
-    for i, (c, (segs, exc)) in enumerate(zip(cases, recs)):
-        desc = synth_desc(c)
-        res.case(('synth', c['s']), nontrivial=len(c['conds']) > 0 and exc is None)
-        res.count('synth:conds:%d' % len(c['conds'])); res.count('synth:modes:' + c['mk'])
-        res.count('synth:solves:%d' % len(c['sim'])); res.count('synth:iterator:' + ('rk4' if c['rk4'] else 'euler'))
-        if i < 1:
-            res.sample(dict(desc, segments=[dict(k0=s_['k0'], m=s_['m'], tf=s_['tf'], post=s_['post']) for s_ in segs]))
-        if exc is not None:
-            res.violate('run-with-condition-raises-' + exc[0], 'solve with stopping conditions raised %s: %s' % exc[:2], desc, exc[2], 'no exception')
-        for seg in segs:
-            oracle_segment(res, '', desc, c['conds'], seg, 'synth')
-            if model is not None:
-                compare_segment(res, desc, model[li], seg)
-            li += 1
-        res.traces += len(segs)
+    for _ in range(N):
+        s = ctx.rng.getrandbits(40)
+        ok, c = guard(res, 'synth-generate', dict(kind='synth', s=s), synth_case, s)
+        if not ok:
+            continue
+        ok, r = guard(res, 'solve-with-conditions', synth_desc(c), drive_synth, c)
+        if not ok:
+            continue
+        segs, exc = r
+        lis = []
+        for seg in segs:        # only completed solves are in segs
+            ok, ln = guard(res, 'synth-encode', synth_desc(c), seg_line, enc_names(c['phases'], c['elements']), seg['H'], c['nP'], c['nE'], c['conds'], seg)
+            lis.append(len(lines) if ok else None)
+            if ok:
+                lines.append(ln)
+        recs.append((c, segs, exc, lis))
+    model = driver(ctx, res, lines, oracle_only)
+    for i, (c, segs, exc, lis) in enumerate(recs):
+        guard(res, 'synth-evaluate', synth_desc(c), post_synth, res, c, segs, exc, model, lis, i < 1)
 
 
 # ---- TTP calculator on scripted histories
@@ -657,49 +738,76 @@ def oracle_ttp(res, desc, conds, snaps, table, tag):
         res.count(tag + ':temperatures')
 
 
+class _NoPool:
+    snaps = []
+
+
 def drive_ttp_synth(c):
-    from kawin.precipitation.TimeTemperaturePrecipitation import TTPCalculator
-    M = synth_class()(c['phases'], c['elements'], lambda T, c=c: c['Hs'][round(float(T), 6)])
-    objs = [make_cond(k['q'], k['d'], k['value'], k['sel']) for k in c['conds']]
-    exc = None; pool = SnapPool(M, objs); table = None
+    exc = None; pool = _NoPool(); table = None
     try:
+        from kawin.precipitation.TimeTemperaturePrecipitation import TTPCalculator
+        M = synth_class()(c['phases'], c['elements'], lambda T, c=c: c['Hs'][round(float(T), 6)])
+        objs = [make_cond(k['q'], k['d'], k['value'], k['sel']) for k in c['conds']]
+        pool = SnapPool(M, objs)
         ttp = TTPCalculator(M, objs)
         ttp.calculateTTP(float(c['temps'][0]), float(c['temps'][-1]), len(c['temps']), c['maxTime'], pool=pool)
         table = np.array(ttp.transformationTimes)
     except Exception as e:
-        import traceback
-        exc = (type(e).__name__, str(e)[:200], traceback.format_exc()[-600:])
+        exc = excinfo(e)
     return pool, table, exc
+
+
+def ttp_lines(c, snaps, nP, nE, phases, elements):
+    nm = enc_names(phases, elements)
+    out = []
+    for sn in snaps:
+        cl = ' '.join('%s %s' % (enc_cond(k['q'], k['d'], k['value'], k['sel']), enc_latch(*p)) for k, p in zip(c['conds'], sn['pre']))
+        out.append('sc.ttp %s %s %s %d %d %s' % (enc_hist(nP, nE, sn['H']), nm, f2b(sn['tf']), len(sn['H']['time']) + 5, len(c['conds']), cl))
+    return out
+
+
+def post_ttp(res, c, snaps, table, exc, model, li, tag, what):
+    desc = ttp_desc(c)
+    res.case((c['kind'], c['s']), nontrivial=exc is None)
+    if exc is not None:
+        report_exc(res, what, desc, exc)
+        return
+    oracle_ttp(res, desc, c['conds'], snaps, table, tag)
+    if tag == 'ttp-real':
+        for sn in snaps:
+            if not np.all(sn['temperature'] == sn['T']):
+                res.violate('ttp-wrong-temperature', 'the run for this temperature was not made at this temperature', dict(desc, temperature=sn['T']),
+                            [float(sn['temperature'].min()), float(sn['temperature'].max())], sn['T'])
+        res.sample(dict(desc, table=table.tolist(), rows=[sn['m'] for sn in snaps]), cap=4)
+    if model is not None and li is not None:
+        for j, sn in enumerate(snaps):
+            t = Toks(model[li + j])
+            got = t.flts() if t.ok and t.t[1] != 'raise' else None
+            if got is None or len(got) != len(sn['ret']) or any(not close(a, b, 1e-12) for a, b in zip(sn['ret'], got)):
+                res.disagree('TTP times of one temperature', dict(desc, temperature=sn['T']), list(sn['ret']), got)
+    res.traces += len(snaps)
 
 
 def part_ttp_synth(ctx, res, N, oracle_only):
     lines, recs = [], []
     for _ in range(N):
-        c = ttp_synth_case(ctx.rng.getrandbits(40))
-        pool, table, exc = drive_ttp_synth(c)
-        recs.append((c, pool.snaps, table, exc))
-        if exc is None:
-            nm = enc_names(c['phases'], c['elements'])
-            for sn in pool.snaps:
-                cl = ' '.join('%s %s' % (enc_cond(k['q'], k['d'], k['value'], k['sel']), enc_latch(*p)) for k, p in zip(c['conds'], sn['pre']))
-                lines.append('sc.ttp %s %s %s %d %d %s' % (enc_hist(c['nP'], c['nE'], sn['H']), nm, f2b(sn['tf']), len(sn['H']['time']) + 5, len(c['conds']), cl))
-    model = vlib.run_driver(PROP, lines) if (ctx.driver_ok and not oracle_only) else None
-    li = 0
-    for c, snaps, table, exc in recs:
-        desc = ttp_desc(c)
-        res.case(('ttp-synth', c['s']), nontrivial=exc is None)
-        if exc is not None:
-            res.violate('ttp-raises-' + exc[0], 'TTPCalculator raised %s: %s' % exc[:2], desc, exc[2], 'no exception')
+        s = ctx.rng.getrandbits(40)
+        ok, c = guard(res, 'ttp-generate', dict(kind='ttp-synth', s=s), ttp_synth_case, s)
+        if not ok:
             continue
-        oracle_ttp(res, desc, c['conds'], snaps, table, 'ttp-synth')
-        for sn in snaps:
-            if model is not None:
-                t = Toks(model[li])
-                got = t.flts() if t.ok and t.t[1] != 'raise' else None
-                if got is None or len(got) != len(sn['ret']) or any(not close(a, b, 1e-12) for a, b in zip(sn['ret'], got)):
-                    res.disagree('TTP times of one temperature', dict(desc, temperature=sn['T']), list(sn['ret']), got)
-            li += 1
-        res.traces += len(snaps)
+        ok, r = guard(res, 'ttp-calculator', ttp_desc(c), drive_ttp_synth, c)
+        if not ok:
+            continue
+        pool, table, exc = r
+        li = None
+        if exc is None:
+            ok, ls = guard(res, 'ttp-encode', ttp_desc(c), ttp_lines, c, pool.snaps, c['nP'], c['nE'], c['phases'], c['elements'])
+            if ok:
+                li = len(lines); lines += ls
+        recs.append((c, pool.snaps, table, exc, li))
+    model = driver(ctx, res, lines, oracle_only)
+    for c, snaps, table, exc, li in recs:
+        guard(res, 'ttp-evaluate', ttp_desc(c), post_ttp, res, c, snaps, table, exc, model, li, 'ttp-synth', 'ttp-calculator')
 
 
 # ---------------------------------------------------------------- (b) real binary Al-Zr run
@@ -780,130 +888,150 @@ def real_desc(c):
 
 
 def drive_real(c):
-    from kawin.solver import SolverType
-    M = real_model(c['T'])
-    objs = [make_cond(k['q'], k['d'], k['value'], k['sel']) for k in c['conds']]
-    for o, k in zip(objs, c['conds']):
-        M.addStoppingCondition(o, k['mode'])
+    import warnings
     exc, seg = None, None
     try:
-        with contextlib.redirect_stdout(io.StringIO()), np.errstate(all='ignore'):
+        with warnings.catch_warnings(), contextlib.redirect_stdout(io.StringIO()), np.errstate(all='ignore'):
+            warnings.simplefilter('ignore')
+            from kawin.solver import SolverType
+            M = real_model(c['T'])
+            objs = [make_cond(k['q'], k['d'], k['value'], k['sel']) for k in c['conds']]
+            for o, k in zip(objs, c['conds']):
+                M.addStoppingCondition(o, k['mode'])
             M.solve(c['sim'], solverType=SolverType.EXPLICITEULER, verbose=False)
         seg = dict(k0=0, tf=float(M.finalTime), active=len(objs), pre=[(False, -1.0)] * len(objs), m=M.pData.n,
                    post=[(bool(o.isSatisfied()), float(o.satisfiedTime())) for o in objs], H=pdata_hist(M.pData))
     except Exception as e:
-        import traceback
-        exc = (type(e).__name__, str(e)[:200], traceback.format_exc()[-600:])
+        exc = excinfo(e); seg = None
     return seg, exc
 
 
+def post_real(res, c, seg, exc, model, li):
+    desc = real_desc(c)
+    res.case(('real', c['s'], c['variant']), nontrivial=exc is None)
+    res.count('real:variant:' + c['variant'])
+    if exc is not None:
+        report_exc(res, 'real-run-with-conditions', desc, exc)
+        return
+    res.count('real:steps', seg['m'])
+    res.sample(dict(desc, rows=seg['m'], t_end=float(seg['H']['time'][-1]), latches=seg['post']), cap=4)
+    oracle_segment(res, 'real-', desc, c['conds'], seg, 'real')
+    if model is not None and li is not None:
+        compare_segment(res, desc, model[li], seg)
+    res.traces += 1
+
+
 def part_real(ctx, res, variants, oracle_only):
-    import warnings
     lines, recs = [], []
     for v in variants:
-        c = real_case(ctx.rng.getrandbits(40), v)
-        with warnings.catch_warnings():
-            warnings.simplefilter('ignore')
-            seg, exc = drive_real(c)
-        recs.append((c, seg, exc))
-        if seg is not None:
-            lines.append(seg_line(enc_names(['AL3ZR'], ['ZR']), seg['H'], 1, 1, c['conds'], seg))
-    model = vlib.run_driver(PROP, lines) if (ctx.driver_ok and not oracle_only) else None
-    li = 0
-    for c, seg, exc in recs:
-        desc = real_desc(c)
-        res.case(('real', c['s'], c['variant']), nontrivial=exc is None)
-        res.count('real:variant:' + c['variant'])
-        if exc is not None:
-            res.violate('real-run-with-condition-raises-' + exc[0], 'PrecipitateModel.solve with stopping conditions raised %s: %s' % exc[:2], desc, exc[2], 'no exception')
+        s = ctx.rng.getrandbits(40)
+        ok, c = guard(res, 'real-generate', dict(kind='real', s=s, variant=v), real_case, s, v)
+        if not ok:
             continue
-        res.count('real:steps', seg['m'])
-        res.sample(dict(desc, rows=seg['m'], t_end=float(seg['H']['time'][-1]), latches=seg['post']), cap=4)
-        oracle_segment(res, 'real-', desc, c['conds'], seg, 'real')
-        if model is not None:
-            compare_segment(res, desc, model[li], seg)
-        li += 1
-        res.traces += 1
+        ok, r = guard(res, 'real-run-with-conditions', real_desc(c), drive_real, c)
+        if not ok:
+            continue
+        seg, exc = r
+        li = None
+        if seg is not None:
+            ok, ln = guard(res, 'real-encode', real_desc(c), seg_line, enc_names(['AL3ZR'], ['ZR']), seg['H'], 1, 1, c['conds'], seg)
+            if ok:
+                li = len(lines); lines.append(ln)
+        recs.append((c, seg, exc, li))
+    model = driver(ctx, res, lines, oracle_only)
+    for c, seg, exc, li in recs:
+        guard(res, 'real-evaluate', real_desc(c), post_real, res, c, seg, exc, model, li)
 
 
-def part_ttp_real(ctx, res, oracle_only):
+def drive_ttp_real(c):
     import warnings
-    vlib.use_repo()
-    from kawin.precipitation.TimeTemperaturePrecipitation import TTPCalculator
-    r = np.random.default_rng([ctx.rng.getrandbits(40), 6])
+    exc = None; pool = _NoPool(); table = None
+    try:
+        with warnings.catch_warnings(), np.errstate(all='ignore'):
+            warnings.simplefilter('ignore')
+            from kawin.precipitation.TimeTemperaturePrecipitation import TTPCalculator
+            M = real_model()
+            objs = [make_cond(k['q'], k['d'], k['value'], k['sel']) for k in c['conds']]
+            pool = SnapPool(M, objs)
+            ttp = TTPCalculator(M, objs)
+            ttp.calculateTTP(float(c['temps'][0]), float(c['temps'][-1]), len(c['temps']), c['maxTime'], pool=pool)
+            table = np.array(ttp.transformationTimes)
+    except Exception as e:
+        exc = excinfo(e)
+    return pool, table, exc
+
+
+def ttp_real_case(s):
+    r = np.random.default_rng([s, 6])
     conds = [dict(q=0, d='G', sel='AL3ZR', col=0, value=float(10 ** r.uniform(-4, -2.5)), mode='and', tk='vf>'),
              dict(q=1, d='G', sel=None, col=0, value=float(r.uniform(5e-10, 1.2e-9)), mode='and', tk='R>'),
              dict(q=5, d='L', sel='ZR', col=0, value=float(r.uniform(3.0e-3, 3.9e-3)), mode='and', tk='x<'),
              dict(q=3, d='L', sel=None, col=0, value=1e10, mode='and', tk='nuc<')][: int(r.integers(3, 5))]
-    c = dict(kind='ttp-real', s=0, temps=np.linspace(698.15, 773.15, 3), conds=conds, maxTime=float(r.choice([900.0, 1500.0])))
-    desc = ttp_desc(c)
-    M = real_model()
-    objs = [make_cond(k['q'], k['d'], k['value'], k['sel']) for k in conds]
-    pool = SnapPool(M, objs); exc = None; table = None
-    try:
-        with warnings.catch_warnings(), np.errstate(all='ignore'):
-            warnings.simplefilter('ignore')
-            ttp = TTPCalculator(M, objs)
-            ttp.calculateTTP(float(c['temps'][0]), float(c['temps'][-1]), 3, c['maxTime'], pool=pool)
-            table = np.array(ttp.transformationTimes)
-    except Exception as e:
-        import traceback
-        exc = (type(e).__name__, str(e)[:200], traceback.format_exc()[-600:])
-    res.case(('ttp-real',), nontrivial=exc is None)
-    if exc is not None:
-        res.violate('ttp-raises-' + exc[0], 'TTPCalculator on the Al-Zr model raised %s: %s' % exc[:2], desc, exc[2], 'no exception')
+    return dict(kind='ttp-real', s=s, temps=np.linspace(698.15, 773.15, 3), conds=conds, maxTime=float(r.choice([900.0, 1500.0])))
+
+
+def part_ttp_real(ctx, res, oracle_only):
+    s = ctx.rng.getrandbits(40)
+    ok, c = guard(res, 'ttp-generate', dict(kind='ttp-real', s=s), ttp_real_case, s)
+    if not ok:
         return
-    oracle_ttp(res, desc, conds, pool.snaps, table, 'ttp-real')
-    lines = []
-    for sn in pool.snaps:
-        if not np.all(sn['temperature'] == sn['T']):
-            res.violate('ttp-wrong-temperature', 'the run for this temperature was not made at this temperature', dict(desc, temperature=sn['T']),
-                        [float(sn['temperature'].min()), float(sn['temperature'].max())], sn['T'])
-        cl = ' '.join('%s %s' % (enc_cond(k['q'], k['d'], k['value'], k['sel']), enc_latch(*p)) for k, p in zip(conds, sn['pre']))
-        lines.append('sc.ttp %s %s %s %d %d %s' % (enc_hist(1, 1, sn['H']), enc_names(['AL3ZR'], ['ZR']), f2b(sn['tf']), len(sn['H']['time']) + 5, len(conds), cl))
-    res.sample(dict(desc, table=table.tolist(), rows=[sn['m'] for sn in pool.snaps]), cap=4)
-    if ctx.driver_ok and not oracle_only:
-        for sn, ln in zip(pool.snaps, vlib.run_driver(PROP, lines)):
-            t = Toks(ln)
-            got = t.flts() if t.ok and t.t[1] != 'raise' else None
-            if got is None or any(not close(a, b, 1e-12) for a, b in zip(sn['ret'], got)):
-                res.disagree('TTP times of one temperature (real model)', dict(desc, temperature=sn['T']), list(sn['ret']), got)
-    res.traces += len(pool.snaps)
+    ok, r = guard(res, 'ttp-calculator-real', ttp_desc(c), drive_ttp_real, c)
+    if not ok:
+        return
+    pool, table, exc = r
+    lines, li = [], None
+    if exc is None:
+        ok, ls = guard(res, 'ttp-encode', ttp_desc(c), ttp_lines, c, pool.snaps, 1, 1, ['AL3ZR'], ['ZR'])
+        if ok:
+            li = 0; lines = ls
+    model = driver(ctx, res, lines, oracle_only)
+    guard(res, 'ttp-evaluate', ttp_desc(c), post_ttp, res, c, pool.snaps, table, exc, model, li, 'ttp-real', 'ttp-calculator-real')
 
 
 # ---------------------------------------------------------------- combination alone (exhaustive small)
+def comb_one(modes, sats):
+    M = synth_class()(['A'], ['X'], lambda T: None)
+    for mo, sa in zip(modes, sats):
+        o = make_cond(0, 'G', 0.5, None)
+        o._isSatisfied = sa; o._satisfiedTime = 1.0 if sa else -1
+        o.testCondition = (lambda model: None)
+        M.addStoppingCondition(o, 'or' if mo else 'and')
+    # the combination code of postProcess, with everything before it stubbed out
+    M._calculateDependentTerms = lambda t, x: None
+    M._appendArrays = lambda y: None
+    _, stop = M.postProcess(0.0, [np.zeros(1)])
+    return bool(stop)
+
+
+def post_comb(res, modes, sats, st, model, li):
+    res.case(('comb', modes, sats), nontrivial=len(modes) > 0)
+    want = stop_rule(modes, sats)
+    if st != want:
+        res.violate('combination-' + ('stops-without-rule' if st else 'rule-holds-no-stop'),
+                    'postProcess stop flag %r for modes(or=True) %r satisfied %r' % (st, modes, sats), dict(kind='comb', modes=modes, satisfied=sats), st, want)
+    if model is not None:
+        t = Toks(model[li])
+        if not t.ok or t.bool() != st:
+            res.disagree('stop flag', dict(modes=modes, satisfied=sats), st, model[li])
+
+
 def part_combination(ctx, res, oracle_only):
     """all mode/satisfied patterns up to 4 conditions through the real postProcess loop of a SynthModel"""
     import itertools
-    M = synth_class()(['A'], ['X'], lambda T: None)
-    lines, impl, pats = [], [], []
+    lines, recs = [], []
     for k in range(0, 5):
         for modes in itertools.product([True, False], repeat=k):
             for sats in itertools.product([True, False], repeat=k):
-                M.clearStoppingConditions()
-                for mo, sa in zip(modes, sats):
-                    o = make_cond(0, 'G', 0.5, None)
-                    o._isSatisfied = sa; o._satisfiedTime = 1.0 if sa else -1
-                    o.testCondition = (lambda model: None)
-                    M.addStoppingCondition(o, 'or' if mo else 'and')
-                # the combination code of postProcess, with everything before it stubbed out
-                M._calculateDependentTerms = lambda t, x: None
-                M._appendArrays = lambda y: None
-                _, stop = M.postProcess(0.0, [np.zeros(1)])
-                impl.append(bool(stop)); pats.append((modes, sats))
+                desc = dict(kind='comb', modes=modes, satisfied=sats)
+                ok, st = guard(res, 'postProcess-combination', desc, comb_one, modes, sats)
+                if not ok:
+                    continue
+                recs.append((modes, sats, st, len(lines)))
                 lines.append('sc.stop %d %s' % (k, ' '.join('%s %s' % ('T' if mo else 'F', 'T' if sa else 'F') for mo, sa in zip(modes, sats))))
-    model = vlib.run_driver(PROP, lines) if (ctx.driver_ok and not oracle_only) else None
-    for i, ((modes, sats), st) in enumerate(zip(pats, impl)):
-        res.case(('comb', modes, sats), nontrivial=len(modes) > 0)
-        want = stop_rule(modes, sats)
-        if st != want:
-            res.violate('combination-' + ('stops-without-rule' if st else 'rule-holds-no-stop'),
-                        'postProcess stop flag %r for modes(or=True) %r satisfied %r' % (st, modes, sats), dict(kind='comb', modes=modes, satisfied=sats), st, want)
-        if model is not None:
-            t = Toks(model[i])
-            if not t.ok or t.bool() != st:
-                res.disagree('stop flag', dict(modes=modes, satisfied=sats), st, model[i])
-    res.count('combination:patterns', len(pats))
+    model = driver(ctx, res, lines, oracle_only)
+    for modes, sats, st, li in recs:
+        guard(res, 'comb-evaluate', dict(kind='comb', modes=modes, satisfied=sats), post_comb, res, modes, sats, st, model, li)
+    res.count('combination:patterns', len(recs))
 
 
 # ---------------------------------------------------------------- entry points
@@ -915,51 +1043,67 @@ def corr(ctx, oracle_only=False, scale=1):
                 'synth: scripted histories through the real solve/postProcess with 0-6 conditions in and/or mixes, one or two solves, Euler and RK4; '
                 'comb: all 2^k x 2^k mode/satisfied patterns, k <= 4; ttp: TTPCalculator over 2-4 temperatures; real: binary Al-Zr KWN runs. '
                 'non-trivial = at least two tested rows / at least one condition and no exception; distinct = (kind, seed)')
-    part_combination(ctx, res, oracle_only)
-    part_obj(ctx, res, ctx.n(1200, 30000) * scale, oracle_only)
-    part_synth(ctx, res, ctx.n(250, 6000) * scale, oracle_only)
-    part_ttp_synth(ctx, res, ctx.n(40, 800) * scale, oracle_only)
+    # every part runs whatever happened in the others; inside a part every case has its own guard
+    guard(res, 'part-combination', {}, part_combination, ctx, res, oracle_only)
+    guard(res, 'part-obj', {}, part_obj, ctx, res, ctx.n(1200, 30000) * scale, oracle_only)
+    guard(res, 'part-synth', {}, part_synth, ctx, res, ctx.n(250, 6000) * scale, oracle_only)
+    guard(res, 'part-ttp-synth', {}, part_ttp_synth, ctx, res, ctx.n(40, 800) * scale, oracle_only)
     if ctx.thorough:
-        part_real(ctx, res, ['all-and', 'or-mix', 'never', 'never'] + ['any'] * 10 + ['or-mix'] * 4, oracle_only)
-        part_ttp_real(ctx, res, oracle_only)
+        guard(res, 'part-real', {}, part_real, ctx, res, ['all-and', 'or-mix', 'never', 'never'] + ['any'] * 10 + ['or-mix'] * 4, oracle_only)
+        guard(res, 'part-ttp-real', {}, part_ttp_real, ctx, res, oracle_only)
     else:
-        part_real(ctx, res, ['all-and', 'or-mix', 'any', 'never'], oracle_only)
+        guard(res, 'part-real', {}, part_real, ctx, res, ['all-and', 'or-mix', 'any', 'never'], oracle_only)
     res.monitored = list(MONITORED)
+    finish(res)
     return res
 
 
 def search(ctx, broken):
-    """something no longer checks: larger oracle-only sample"""
+    """something no longer checks: larger oracle-only sample (same per-case guards)"""
     return corr(ctx, oracle_only=True, scale=3)
 
 
 def replay(ctx, entry):
     case = entry['violation']['case']
+    if isinstance(case.get('case'), dict) and 'kind' not in case:      # vlib.guarded-style nesting
+        case = case['case']
     kind, s = case.get('kind'), case.get('s')
     r = Result()
-    if kind == 'obj':
-        c = obj_case(s); oracle_obj(r, c, drive_obj(c))
-    elif kind == 'synth':
-        c = synth_case(s); segs, exc = drive_synth(c)
-        if exc is not None:
-            r.violate('run-with-condition-raises-' + exc[0], exc[1], synth_desc(c))
-        for seg in segs:
-            oracle_segment(r, '', synth_desc(c), c['conds'], seg, 'synth')
-    elif kind == 'real':
-        c = real_case(s, case.get('variant', 'any')); seg, exc = drive_real(c)
-        if exc is not None:
-            r.violate('run-with-condition-raises-' + exc[0], exc[1], real_desc(c))
+
+    def one():
+        if kind == 'obj':
+            c = obj_case(s); oracle_obj(r, c, drive_obj(c))
+        elif kind == 'synth':
+            c = synth_case(s); segs, exc = drive_synth(c)
+            if exc is not None:
+                report_exc(r, 'solve-with-conditions', synth_desc(c), exc)
+            for seg in segs:
+                oracle_segment(r, '', synth_desc(c), c['conds'], seg, 'synth')
+        elif kind == 'real':
+            c = real_case(s, case.get('variant', 'any')); seg, exc = drive_real(c)
+            if exc is not None:
+                report_exc(r, 'real-run-with-conditions', real_desc(c), exc)
+            else:
+                oracle_segment(r, 'real-', real_desc(c), c['conds'], seg, 'real')
+        elif kind in ('ttp-synth', 'ttp-real'):
+            c = ttp_synth_case(s) if kind == 'ttp-synth' else ttp_real_case(s)
+            pool, table, exc = drive_ttp_synth(c) if kind == 'ttp-synth' else drive_ttp_real(c)
+            if exc is not None:
+                report_exc(r, 'ttp-calculator', ttp_desc(c), exc)
+            else:
+                oracle_ttp(r, ttp_desc(c), c['conds'], pool.snaps, table, kind)
+        elif kind == 'comb':
+            modes, sats = tuple(case['modes']), tuple(case['satisfied'])
+            post_comb(r, modes, sats, comb_one(modes, sats), None, None)
         else:
-            oracle_segment(r, 'real-', real_desc(c), c['conds'], seg, 'real')
-    elif kind == 'ttp-synth':
-        c = ttp_synth_case(s); pool, table, exc = drive_ttp_synth(c)
-        if exc is not None:
-            r.violate('ttp-raises-' + exc[0], exc[1], ttp_desc(c))
-        else:
-            oracle_ttp(r, ttp_desc(c), c['conds'], pool.snaps, table, 'ttp-synth')
-    else:
+            return False
+        return True
+
+    ok, handled = guard(r, 'replay', case, one)
+    if ok and not handled:
         ctx.driver_ok = False
         r = corr(ctx, oracle_only=True)
     for v in r.violations:
-        print('  ', v['key'], v['what'], v['observed'], v['required'])
+        print('  ', v['key'], v['what'], str(v['observed'])[-300:], v['required'])
+    finish(r)
     return not r.violations
